@@ -362,18 +362,76 @@ func (x *Exec) execRange(st *State, s *ast.RangeStmt, label string) *State {
 
 	case *types.Map:
 		m := x.eval(st, s.X)
+		// ghost set of the keys already produced by this iteration: visited(k)
+		dn, _, ks, _ := x.mapHeaps(u)
+		visSort := mapSort(ks, SBool)
+		dom0 := x.hread(st, dn, visSort, m)
+		x.visStack = append(x.visStack, mk("((as const "+string(visSort)+") false)", visSort))
+		defer func() { x.visStack = x.visStack[:len(x.visStack)-1] }()
+		top := len(x.visStack) - 1
 		x.checkInvs(st, li, "inv-init", s)
 		n := len(st.pc)
+		vis := x.fresh("visited", visSort)
+		x.visStack[top] = vis
 		x.havocLoop(st, s.Body)
 		x.assumeInvs(st, li)
+		// The ghost key set is only meaningful while the map's key set is fixed:
+		// no call made by the body may write maps of this type, and every direct
+		// map write in the body is proved (obligation kind "frame") to go to a
+		// different map. Only loops whose invariants mention visited() opt in.
+		domStable := false
+		if li != nil {
+			for _, inv := range li.Invariants {
+				ast.Inspect(inv.Expr, func(nd ast.Node) bool {
+					if c, ok := nd.(*ast.CallExpr); ok && markerName(c) == "__visited" {
+						domStable = true
+					}
+					return true
+				})
+			}
+		}
+		if domStable {
+			ast.Inspect(s.Body, func(nd ast.Node) bool {
+				c, ok := nd.(*ast.CallExpr)
+				if !ok || strings.HasPrefix(markerName(c), "__") {
+					return true
+				}
+				if id, ok := ast.Unparen(c.Fun).(*ast.Ident); ok {
+					if _, isB := x.info().Uses[id].(*types.Builtin); isB {
+						return true
+					}
+				}
+				eff := x.p.effectsOfNodes(x.cur().fi, x.info(), c)
+				if eff.Top {
+					domStable = false
+				} else if _, w := eff.Writes[dn]; w {
+					domStable = false
+				}
+				return true
+			})
+		}
+		if domStable {
+			x.stableMaps = append(x.stableMaps, stableMap{dn: dn, ref: m})
+			defer func() { x.stableMaps = x.stableMaps[:len(x.stableMaps)-1] }()
+		}
 		exit := st.clone()
 		more := x.fresh("more", SBool)
 		exit.pc = append(exit.pc, Not(more))
+		if domStable {
+			// the loop ends normally only after every key was produced
+			x.nfresh++
+			bv := BoundVar(fmt.Sprintf("key!q%d", x.nfresh), ks)
+			exit.assume(ForallPat([]*Term{bv}, Implies(And(Neq(m, IntLit(0)), mk("select", SBool, dom0, bv)), mk("select", SBool, vis, bv)), mk("select", SBool, dom0, bv)))
+		}
 		body := st.clone()
 		body.pc = append(body.pc, more)
 		k := x.unknown(body, "key", u.Key())
 		val, ok := x.mapLookup(body, u, m, k)
 		body.assume(ok)
+		if domStable {
+			// every key is produced at most once
+			body.assume(Not(mk("select", SBool, vis, k)))
+		}
 		setVar(body, keyV, k)
 		setVar(body, valV, val)
 		lc := &loopCtx{label: label}
@@ -383,7 +441,9 @@ func (x *Exec) execRange(st *State, s *ast.RangeStmt, label string) *State {
 		x.loops = x.loops[:len(x.loops)-1]
 		back := x.merge(nb, append([]*State{end}, lc.continues...))
 		if back != nil {
+			x.visStack[top] = mk("store", visSort, vis, k, tTrue)
 			x.checkInvs(back, li, "inv-keep", s)
+			x.visStack[top] = vis
 		}
 		return x.merge(n, append([]*State{exit}, lc.breaks...))
 
